@@ -4,11 +4,22 @@
     [holds4]: a document the reference validator (C03/Spec.v, every rule on every syntactic position)
     finds valid gets no diagnostic at all from the implementation. The guards of the theorems are evaluated
     too, so that their coverage of the generated inputs is measured on every run: [schema_wf] and
-    [schema_closed] on every schema, [doc_fine_vis] (hypothesis of C04_complete_vis) on every valid document. *)
+    [schema_closed] on every schema; on every valid document [doc_fine_vis] (hypothesis of C04_complete_vis) and the two
+    hypotheses of C04_complete that are stated in the implementation's terms (every fragment is spread by an operation;
+    a subscription's response keys). *)
 From V Require Import Base.Util Gql.Ast C03.Model C03.Spec C03.Corr.
+
+Definition complete_hyps (D : opdoc) : bool :=
+  forallb (fun f => mem_str (iname (fr_name f)) (spread_by_operations (doc_fuel D) (doc_frags D) (od_defs D))) (doc_frags D)
+  && forallb (fun o => match op_type o with
+                       | Subscription => Nat.leb (length (collect_response_keys (doc_fuel D) (doc_frags D) [] (op_sel o) [])) 1
+                       | _ => true
+                       end) (doc_ops D).
 
 Definition holds4 (c : case) : bool :=
   schema_wf (c_schema c) && schema_closed (c_schema c) &&
   if spec_valid (c_schema c) (c_doc c)
-  then doc_fine_vis (c_schema c) (c_doc c) && match c_out c with [] => true | _ => false end
+  then doc_fine_vis (c_schema c) (c_doc c)
+       && (negb (every_fragment_spread (c_doc c)) || complete_hyps (c_doc c))
+       && match c_out c with [] => true | _ => false end
   else true.
